@@ -19,8 +19,9 @@ META = {
                    "by every test the parser makes and forgotten at every consumption; look-ahead beyond the "
                    "current token is unknown). Per-context summaries reach a least fixpoint, so every token "
                    "sequence is covered. Obligations P1-P4, P7 and M together imply that parse_module returns "
-                   "for every input whose nesting depth is bounded; P5 (no depth bound, look-ahead accumulating "
-                   "along return paths) is open on this tree and recorded as known findings.",
+                   "for every input whose nesting depth is bounded; P5: a nesting guard found by role cuts every recursive "
+                   "cycle, the look-aheads made on the way back out stay below the fuel, and the wraps of postfix / binary operators are charged to a "
+                   "budget that never falls within an activation (tree depth <= limit x nodes per level).",
     "not_decided": "panics inside logos/rowan.",
     "trusted_base": ["rustc MIR construction, callee resolution, const evaluation",
                      "logos emits only kinds that carry #[token]/#[regex]/#[error]",
@@ -54,76 +55,190 @@ def fuel_constants(F):
     return init, refill
 
 
+DEREF = ("Deref>::deref", "Deref::deref")
+
+
+def cell_field(d, op):
+    """name of the field of the function's first parameter (self) whose Cell this operand refers to, through Rc / & derefs"""
+    o = d.origin_op(op, through_calls=DEREF)
+    if o.get("k") == "field" and o["base"].get("k") == "arg" and o["base"].get("n") == 1:
+        names = [e.get("n") for e in o["proj"] if isinstance(e, dict) and "f" in e]
+        if len(names) == 1:
+            return names[0]
+    return None
+
+
+def counter_tests(f, d):
+    """comparisons `Cell::get(self.<field>) <op> constant` that decide a branch: [{field, limit, deep, ok, bb}] where `deep` is the
+    edge taken when the counter has reached the limit"""
+    out = []
+    for b, i, s_ in f.stmts():
+        rv = s_.get("rv") or {}
+        if rv.get("k") != "bin" or rv["op"] not in ("Ge", "Gt", "Lt", "Le"):
+            continue
+        ka, kb = rv["a"].get("k") if isinstance(rv["a"], dict) else None, rv["b"].get("k") if isinstance(rv["b"], dict) else None
+        const = kb if isinstance(kb, dict) and "bits" in kb else (ka if isinstance(ka, dict) and "bits" in ka else None)
+        if const is None:
+            continue
+        other = rv["a"] if const is kb else rv["b"]
+        oo = d.origin_op(other) if isinstance(other, dict) and "k" not in other else {}
+        if not (oo.get("k") == "call" and (callee(oo["t"]) or "").endswith("Cell::<T>::get")):
+            continue
+        t = f.term(b)
+        if not (t["k"] == "switch" and op_local(t["op"]) == s_["place"]["l"]):
+            continue
+        n = int(const["bits"])
+        counter_left = const is kb
+        true_t, false_t = t["otherwise"], [x for v, x in t["targets"] if int(v) == 0][0]
+        op = rv["op"] if counter_left else {"Ge": "Le", "Gt": "Lt", "Le": "Ge", "Lt": "Gt"}[rv["op"]]
+        if op in ("Ge", "Gt"):
+            deep, ok_edge, limit = true_t, false_t, (n if op == "Ge" else n + 1)
+        else:
+            deep, ok_edge, limit = false_t, true_t, (n if op == "Lt" else n + 1)
+        out.append({"field": cell_field(d, oo["t"]["args"][0]), "limit": limit, "deep": deep, "ok": ok_edge, "bb": b})
+    return out
+
+
+def cell_writes(f, d):
+    """[(bb, field, how, value origin)] for Cell::set / Cell::replace on a field of self; how = 'inc' (stores get(same field) + 1),
+    'dec', 'max' (the larger of get(same field) and something else), 'from:<field>' (stores get(other field)), or 'other'"""
+    out = []
+    for b, t in f.calls():
+        c = callee(t) or ""
+        if not c.endswith(("Cell::<T>::set", "Cell::<T>::replace")):
+            continue
+        fld = cell_field(d, t["args"][0])
+        o = d.origin_op(t["args"][1])
+        base = o
+        while base.get("k") == "field":
+            base = base["base"]
+
+        def got(op_):
+            oo = d.origin_op(op_) if isinstance(op_, dict) and "k" not in op_ else {}
+            if oo.get("k") == "call" and (callee(oo["t"]) or "").endswith("Cell::<T>::get"):
+                return cell_field(d, oo["t"]["args"][0])
+            return None
+        how = "other"
+        if base.get("k") == "rv" and base["rv"].get("k") == "bin" and base["rv"]["op"] in ("AddWithOverflow", "Add", "SubWithOverflow", "Sub"):
+            kb = base["rv"]["b"].get("k") if isinstance(base["rv"]["b"], dict) else None
+            if isinstance(kb, dict) and str(kb.get("bits")) == "1" and got(base["rv"]["a"]) == fld and fld is not None:
+                how = "inc" if base["rv"]["op"].startswith("Add") else "dec"
+        elif base.get("k") == "call" and (callee(base["t"]) or "").endswith(("Ord::max", "cmp::max")):
+            if any(got(a) == fld for a in base["t"]["args"]) and fld is not None:
+                how = "max"
+        elif base.get("k") == "call" and (callee(base["t"]) or "").endswith("Cell::<T>::get"):
+            src = cell_field(d, base["t"]["args"][0])
+            how = "from:%s" % src
+        out.append((b, fld, how, o))
+    return out
+
+
 def nesting_guard(F):
-    """The Parser method that bounds the nesting, found by what it does: it reads a counter field of the parser (Cell::get),
-    compares it with a constant N, and only on the side where the counter is below N stores counter + 1. Returns
-    {method, field, limit, token (the type handed out), releases (the Drop impl stores counter - 1)} or None."""
-    from lib import effects as EF
+    """The Parser method that bounds the nesting, found by what it does: it hands out an Option of a token type that has a Drop impl,
+    reads a counter field of the parser (Cell::get), compares it with a constant N, stores counter + 1 only on the side where the
+    counter is below N, and the token's Drop stores counter - 1 into the same cell. Returns {method, field, limit, token, releases,
+    increment_only_below_limit, token_fields (token field -> parser field it shares a cell with)} or None."""
+    import re as _re
     for p_, f in sorted(F.fns.items()):
         if not p_.startswith(PM.P) or not f.blocks or "{closure" in p_:
             continue
+        m = _re.search(r"Option<([\w:]+)>", f.d.get("output") or "")
+        if not m:
+            continue
+        token = m.group(1)
+        g = F.fns.get("<%s as core::ops::drop::Drop>::drop" % token)
+        if g is None or not g.blocks:
+            continue
         d = FL.Defs(f)
-        gets = [(b, t) for b, t in f.calls() if (callee(t) or "").endswith("Cell::<T>::get")]
-        sets = [(b, t) for b, t in f.calls() if (callee(t) or "").endswith("Cell::<T>::set")]
-        if not gets or not sets:
+        writes = cell_writes(f, d)
+        for ct in counter_tests(f, d):
+            fld = ct["field"]
+            inc = [b for b, wf, how, _o in writes if wf == fld and how == "inc"]
+            if fld is None or fld == "fuel" or not inc:
+                continue
+            inc_on_deep = any(f.can_reach(ct["deep"], [b]) or b == ct["deep"] for b in inc)
+            inc_on_ok = any(f.can_reach(ct["ok"], [b]) or b == ct["ok"] for b in inc)
+            # which cell of the parser each field of the token shares: the token is built from clones of the parser's Rc fields
+            token_fields, saved = {}, {}
+            for b, i, s_ in f.stmts():
+                rv = s_.get("rv") or {}
+                if rv.get("k") == "agg" and rv.get("adt") == token:
+                    names = rv.get("fields") or []
+                    for n_, o_ in zip(names, rv["ops"]):
+                        oo = d.origin_op(o_, through_calls=("Clone>::clone", "Clone::clone"))
+                        if oo.get("k") == "field" and oo["base"].get("k") == "arg":
+                            pf = [e.get("n") for e in oo["proj"] if isinstance(e, dict) and "f" in e]
+                            if len(pf) == 1:
+                                token_fields[n_] = pf[0]
+                        elif oo.get("k") == "call" and (callee(oo["t"]) or "").endswith(("Cell::<T>::replace", "Cell::<T>::get")):
+                            saved[n_] = cell_field(d, oo["t"]["args"][0])
+            dg = FL.Defs(g)
+            gw = cell_writes(g, dg)
+            releases = any(token_fields.get(wf) == fld and how == "dec" for _b, wf, how, _o in gw)
+            return {"method": p_, "field": fld, "limit": ct["limit"], "token": token, "releases": releases,
+                    "increment_only_below_limit": inc_on_ok and not inc_on_deep, "line": f.line,
+                    "token_fields": token_fields, "saved": saved, "writes": [(wf, how) for _b, wf, how, _o in writes],
+                    "drop_writes": [(token_fields.get(wf, wf), how) for _b, wf, how, _o in gw]}
+    return None
+
+
+def wrap_budget(F, guard):
+    """The Parser method that says whether one more wrap is allowed, found by what it does: it answers bool and compares a counter
+    of the parser with the guard's limit. {method, field, counts (every accepting path stores counter + 1; no refusing path does),
+    monotone (within one activation the counter never falls: the guard may re-base it on the level counter when a level is entered,
+    but the token's Drop then stores the larger of what the level reached and what was saved), other_writers}"""
+    from lib import effects as EF
+    for p_, f in sorted(F.fns.items()):
+        if not p_.startswith(PM.P) or not f.blocks or "{closure" in p_ or p_ == guard["method"] or f.d.get("output") != "bool":
             continue
-        fields = {e["field"] for e in EF.field_effects(f, PM.PA) if (e.get("callee") or "").endswith(("Cell::<T>::get", "Cell::<T>::set", "Deref>::deref", "Deref::deref"))}
-        fields -= {"fuel"}
-        if len(fields) != 1:
-            continue
-        limit, cmp_bb, deep_edge = None, None, None
-        for b, i, s_ in f.stmts():
-            rv = s_.get("rv") or {}
-            if rv.get("k") == "bin" and rv["op"] in ("Ge", "Gt", "Lt", "Le"):
-                ka, kb = rv["a"].get("k") if isinstance(rv["a"], dict) else None, rv["b"].get("k") if isinstance(rv["b"], dict) else None
-                const = kb if isinstance(kb, dict) and "bits" in kb else (ka if isinstance(ka, dict) and "bits" in ka else None)
-                other = rv["a"] if const is kb else rv["b"]
-                oo = d.origin_op(other) if isinstance(other, dict) and "k" not in other else {}
-                if const is not None and oo.get("k") == "call" and (callee(oo["t"]) or "").endswith("Cell::<T>::get"):
-                    t = f.term(b)
-                    if t["k"] == "switch" and op_local(t["op"]) == s_["place"]["l"]:
-                        n = int(const["bits"])
-                        counter_left = const is kb
-                        # the edge on which `counter >= N` (or `counter > N - 1`) holds
-                        true_t, false_t = t["otherwise"], [x for v, x in t["targets"] if int(v) == 0][0]
-                        op = rv["op"] if counter_left else {"Ge": "Le", "Gt": "Lt", "Le": "Ge", "Lt": "Gt"}[rv["op"]]
-                        if op in ("Ge", "Gt"):
-                            deep, ok_edge = true_t, false_t
-                            limit = n if op == "Ge" else n + 1
-                        else:
-                            deep, ok_edge = false_t, true_t
-                            limit = n if op == "Lt" else n + 1
-                        cmp_bb, deep_edge = b, (deep, ok_edge)
-        if limit is None:
-            continue
-        deep, ok_edge = deep_edge
-        # the increment is reachable from the ok edge only
-        inc = [b for b, t in sets]
-        inc_on_deep = any(f.can_reach(deep, [b]) for b in inc) if deep != ok_edge else True
-        inc_on_ok = any(f.can_reach(ok_edge, [b]) or b == ok_edge for b in inc)
-        out_ty = f.d.get("output") or ""
-        token = None
-        for adt in F.adts if hasattr(F, "adts") else []:
-            pass
-        import re as _re
-        m = _re.search(r"Option<([\w:]+)>", out_ty)
-        token = m.group(1) if m else None
-        releases = False
-        if token:
-            dp = "<%s as core::ops::drop::Drop>::drop" % token
-            g = F.fns.get(dp)
-            if g is not None and g.blocks:
-                dg = FL.Defs(g)
-                for b, t in g.calls():
-                    if (callee(t) or "").endswith("Cell::<T>::set"):
-                        o = dg.origin_op(t["args"][1])
-                        base = o
-                        while base.get("k") == "field":
-                            base = base["base"]
-                        if base.get("k") == "rv" and base["rv"].get("k") == "bin" and base["rv"]["op"] in ("Sub", "SubWithOverflow"):
-                            releases = True
-        return {"method": p_, "field": sorted(fields)[0], "limit": limit, "token": token, "releases": releases,
-                "increment_only_below_limit": inc_on_ok and not inc_on_deep, "line": f.line}
+        d = FL.Defs(f)
+        for ct in counter_tests(f, d):
+            if ct["limit"] != guard["limit"] or ct["field"] in (None, "fuel"):
+                continue
+            fld = ct["field"]
+            writes = cell_writes(f, d)
+            inc = [b for b, wf, how, _o in writes if wf == fld and how == "inc"]
+            stray = [how for b, wf, how, _o in writes if wf == fld and how != "inc"]
+            rets_true = [b for b, i, s_ in f.stmts() if s_["k"] == "assign" and s_["place"]["l"] == 0 and not s_["place"]["p"] and
+                         isinstance((s_["rv"].get("op") or {}).get("k"), dict) and str(s_["rv"]["op"]["k"].get("bits")) == "1"]
+            counts = bool(inc) and not stray and not any(f.can_reach(ct["deep"], [b]) or b == ct["deep"] for b in inc) and \
+                bool(rets_true) and all(FL.must_pass(f, inc, [b]) for b in rets_true) and \
+                not any(f.can_reach(ct["deep"], [b]) or b == ct["deep"] for b in rets_true)
+            # the counter is the level counter itself (old form `depth + wraps`): not a budget that is charged
+            if fld == guard["field"]:
+                counts = False
+            # who else writes this cell
+            problems = []
+            gw = [(wf, how) for wf, how in guard["writes"] if wf == fld]
+            for wf, how in gw:
+                if how != "from:%s" % guard["field"]:
+                    problems.append("%s stores %s into %s" % (FL.short(guard["method"]), how, fld))
+            rebased = bool(gw)
+            dw = [(wf, how) for wf, how in guard["drop_writes"] if wf == fld]
+            for wf, how in dw:
+                if how != "max":
+                    problems.append("the Drop of %s stores %s into %s" % (guard["token"].rsplit("::", 1)[-1], how, fld))
+            if rebased and not dw:
+                problems.append("%s re-bases %s when a level is entered and nothing brings the enclosing construct's count back when it is left" % (FL.short(guard["method"]), fld))
+            if rebased and not any(v == fld for v in guard["saved"].values()):
+                problems.append("the value of %s that %s overwrites is not kept in the token" % (fld, FL.short(guard["method"])))
+            others = []
+            for q_, h in sorted(F.fns.items()):
+                if not (q_.startswith("syntax::") or q_.startswith("<syntax::")) or not h.blocks or q_ in (p_, guard["method"]) or \
+                        q_ == "<%s as core::ops::drop::Drop>::drop" % guard["token"]:
+                    continue
+                if not any((callee(t) or "").endswith(("Cell::<T>::set", "Cell::<T>::replace", "Cell::<T>::take", "Cell::<T>::swap")) for _b, t in h.calls()):
+                    continue
+                dh = FL.Defs(h)
+                for b, t in h.calls():
+                    if (callee(t) or "").endswith(("Cell::<T>::set", "Cell::<T>::replace", "Cell::<T>::take", "Cell::<T>::swap")):
+                        o = dh.origin_op(t["args"][0], through_calls=DEREF)
+                        names = [e.get("n") for e in (o.get("proj") or []) if isinstance(e, dict) and "f" in e] if o.get("k") == "field" else []
+                        if fld in names:
+                            others.append(FL.short(q_))
+            if others:
+                problems.append("also written in %s" % sorted(set(others)))
+            return {"method": p_, "field": fld, "counts": counts, "monotone": not problems, "problems": problems, "line": f.line}
     return None
 
 
@@ -227,16 +342,8 @@ def nesting_status(F, R):
     once = sum(v for f, v in tails_all.items() if f not in rec)
     bound = (guard["limit"] * W_max + once + R["la_abs"]) if guard and cut_all else None
     # wraps: start_node_before inside a loop must sit behind the budget test
-    budget = None
-    if guard:
-        for p_, f in sorted(F.fns.items()):
-            if p_.startswith(PM.P) and f.blocks and p_ != guard["method"] and (f.d.get("output") == "bool"):
-                d = FL.Defs(f)
-                if any((callee(t) or "").endswith("Cell::<T>::get") for b, t in f.calls()) and \
-                        any((s_.get("rv") or {}).get("k") == "bin" and s_["rv"]["op"] in ("Ge", "Gt", "Lt", "Le") and
-                            any(isinstance(o.get("k"), dict) and str(o["k"].get("bits")) == str(guard["limit"]) for o in (s_["rv"]["a"], s_["rv"]["b"]) if isinstance(o, dict))
-                            for b, i, s_ in f.stmts()):
-                    budget = p_
+    bud = wrap_budget(F, guard) if guard else None
+    budget = bud["method"] if bud else None
     wraps = []
     for p_ in R["functions"]:
         f = F.fn(p_)
@@ -252,9 +359,10 @@ def nesting_status(F, R):
                     wraps.append({"fn": p_, "ordinal": k, "line": t["ln"], "gated": gated})
                 k += 1
     fuel_ok = bound is not None and refill is not None and init is not None and bound < min(init, refill) and all(w["gated"] for w in wraps)
-    return {"guard": guard, "cycles": cycles, "wraps": wraps, "limit": (guard or {}).get("limit"), "heaviest_level": W_max, "non_recursive_tails": once,
+    budget_ok = not wraps or (bool(bud) and bud["counts"] and bud["monotone"])
+    return {"guard": guard, "budget": bud, "cycles": cycles, "wraps": wraps, "limit": (guard or {}).get("limit"), "heaviest_level": W_max, "non_recursive_tails": once,
             "head": R["la_abs"], "bound": bound, "fuel": refill, "fuel_ok": fuel_ok,
-            "ok": bool(guard) and guard["increment_only_below_limit"] and guard["releases"] and cut_all and fuel_ok}
+            "ok": bool(guard) and guard["increment_only_below_limit"] and guard["releases"] and cut_all and fuel_ok and budget_ok}
 
 
 def run(F, res, tier):
@@ -345,6 +453,19 @@ def run(F, res, tier):
         res.ob("P5a", "wrap-budget/%s/%d" % (w["fn"].rsplit("::", 1)[-1], w["ordinal"]), "an operand is wrapped into a new node inside a loop only while the "
                "nesting budget allows it (the tree, and with it every later recursive walk, stays shallow however long a chain of operators is)",
                w["gated"], where="crates/syntax/src/parser.rs:%s" % w["line"], how="gated by the budget test: %s" % w["gated"])
+    bud = NS["budget"]
+    if NS["wraps"] or bud:
+        res.ob("P5a", "wrap-budget/charged", "the budget test counts what it grants: every accepting answer stores counter + 1, no refusing one does, and the "
+               "counter is not the level counter (a budget that is compared but never charged, or charged to the operand's own level only, lets "
+               "each nested operand start afresh: [[[x] + 1 + 1 ..] + 1 + 1 ..] builds a tree thousands of levels deep)",
+               bool(bud) and bud["counts"], where="crates/syntax/src/parser.rs:%s" % (bud or {}).get("line", ""),
+               how="%s charges Parser.%s" % (FL.short(bud["method"]), bud["field"]) if bud and bud["counts"] else str(bud))
+        res.ob("P5a", "wrap-budget/never-falls", "within one activation the budget counter never falls: entering a level may re-base it on the level "
+               "counter only if the overwritten value is kept in the token and the token's Drop stores the larger of the two; nobody else writes it "
+               "(what is nested in an operand is nested in everything wrapped around the operand later)",
+               bool(bud) and bud["monotone"], where="crates/syntax/src/parser.rs:%s" % (bud or {}).get("line", ""),
+               how="writers: the budget test (+1), %s (from the level counter, old value saved), Drop (max)" % FL.short(guard["method"]) if bud and bud["monotone"]
+               else "; ".join((bud or {}).get("problems", ["no budget test"])))
     res.analysed["nesting"] = {k: NS[k] for k in ("limit", "heaviest_level", "non_recursive_tails", "head", "bound", "fuel")}
     res.ob("P5b", "lookahead-on-return-path-bounded",
            "look-aheads performed while returning through nested frames cannot exhaust the fuel: fuel > limit x (heaviest return path of one level) "
